@@ -16,6 +16,44 @@ KF_KEYS = {"C35-literal-metadata-dropped", "C35-alias-metadata-dropped", "C35-ca
 
 from props.protoenums_common import table_report, cs
 
+KF_F16 = "C35-float16-scalar-decoded-as-float32"
+KF_VALUES = "C35-values-schema-nullability-not-preserved"
+KF_CTE = "C35-cte-work-table-scan-projection-dropped"
+KF_EMPTY = "C35-empty-relation-schema-dropped"
+KF_PLACEHOLDER = "C35-placeholder-field-name-dropped"
+KF_EXPLAIN = "C35-explain-stringified-plans-dropped"
+KF_COPY = "C35-copy-to-options-dropped"
+KF_LIMIT = "C35-limit-zero-skip-expression-dropped"
+KF_QUALIFY = "C35-unqualified-column-requalified-by-decoder"
+
+# (key, required substring of the original plan text, normaliser applied to both lines of every differing line pair)
+TEXT_CLASSES = [
+    (KF_VALUES, "Values:", lambda t: t.replace(";N", "")),
+    (KF_CTE, "RecursiveQuery", lambda t: re.sub(r"(TableScan: \S+) projection=\[[^\]]*\]", r"\1", t)),
+    (KF_EMPTY, "EmptyRelation:", lambda t: re.sub(r"EmptyRelation: rows=(\d+) \[[^\]]*\]", r"EmptyRelation: rows=\1 []", t)),
+    (KF_COPY, "CopyTo:", lambda t: re.sub(r"options: \([^)]*\)", "options: ()", t)),
+    (KF_QUALIFY, "", lambda t: re.sub(r"\b[A-Za-z_]\w*\.(?=[A-Za-z_])", "", t)),
+]
+
+
+def classify_plan(st):
+    """known-finding class of a failing plan stage, or None"""
+    why, plan = st.get("why") or "", st.get("plan") or ""
+    if "Explain.stringified_plans" in why:
+        return KF_EXPLAIN
+    if re.search(r"expression of Limit differs: Literal\(Int64\(0\), None\) vs ", why):
+        return KF_LIMIT
+    m = re.search(r"expression of \w+ differs: (.*) vs (.*)$", why, re.S)
+    if m and "Placeholder(Placeholder" in m.group(1):
+        norm = lambda x: re.sub(r'(Placeholder \{ id: "[^"]*", field: Some\(Field \{ name: )"[^"]*"', r'\1""', x)
+        if norm(m.group(1)) == norm(m.group(2)):
+            return KF_PLACEHOLDER
+    if why.startswith("display_indent_schema differs after the round trip:\n") and st.get("diff"):
+        for key, need, f in TEXT_CLASSES:
+            if need in plan and all(f(a) == f(b) for a, b in st["diff"]):
+                return key
+    return None
+
 
 def run(pid, tier, seed, replay):
     ck = Check(pid, tier, seed, level="proof")
@@ -72,12 +110,14 @@ def run(pid, tier, seed, replay):
                 m = re.search(r"Unsupported binary operator '\\?\"(\w+)", c["why"])
                 if m and m.group(1) in byname.get("Operator", {}).get("known_bad", []):
                     key = KF_OP
+            if key is None and c["name"].startswith("literal Float16(") and "Literal(Float32(" in (c.get("why") or ""):
+                key = KF_F16
             fail("expression %s: %s" % (c["name"], c["why"]), {k: c[k] for k in ("id", "name", "shape", "expr", "why")}, key=key)
         elif c["key"]:
             ck.notes.append("witness of %s no longer fails (fixed?): %s" % (c["key"], c["name"]))
     for c in scalars:
         if not c["ok"]:
-            fail("scalar %s: %s" % (c["value"], c["why"]), c)
+            fail("scalar %s: %s" % (c["value"], c["why"]), c, key=KF_F16 if c["value"].startswith("Float16(") else None)
     enc_skipped = 0
     for c in plans:
         for st in c["stages"]:
@@ -86,7 +126,7 @@ def run(pid, tier, seed, replay):
         if not c["ok"]:
             st = [s for s in c["stages"] if not s["ok"]][0]
             fail("plan of `%s` (%s): %s" % (c["sql"][:300], st["stage"], (st["why"] or "")[:600]),
-                 {"id": c["id"], "sql": c["sql"], "tp": c["tp"], "stage": st["stage"], "why": st["why"], "plan": st["plan"]})
+                 {"id": c["id"], "sql": c["sql"], "tp": c["tp"], "stage": st["stage"], "why": st["why"], "diff": st.get("diff"), "plan": st["plan"]}, key=classify_plan(st))
     if nfail:
         ck.log("oracle failures by class: %s" % nfail)
     # ---- T/X tie 1: the variant lists of the harness and of the translator agree; 2: tags and decoded variants agree with the model
